@@ -62,8 +62,19 @@ def build_go(log):
         return rc == 0, out
 
 
-def build_overlay_tests(log):
-    return True
+HARNESS_RACE = os.path.join(BUILD, "harness-race")
+
+
+def build_go_race(log):
+    """thorough tier: a -race build of the harness for the runs that exercise concurrency"""
+    with Lock("go"):
+        t = time.time()
+        rc, out = sh(["go", "build", "-race", "-o", HARNESS_RACE, "./cmd/harness"], cwd=GOH,
+                     env=dict(GOENV, CGO_ENABLED="1"), timeout=1200)
+        log.append("go build -race harness: rc=%d %.1fs" % (rc, time.time() - t))
+        if rc != 0:
+            log.append(out[-2000:])
+        return rc == 0
 
 
 def regen_facts(log):
@@ -374,7 +385,13 @@ def run_check(spec, res, workdir):
             lines, okh = run_overlay_test(o["pkg"], o["files"], o["test"], op, rargs, workdir, "%s-%d" % (op, i), log,
                                           race=(o.get("race") and tier == "thorough"))
         else:
-            lines, crashed, okh = run_harness(op, rargs, workdir, "%s-%d" % (op, i), log, binary=binary)
+            if opts.get("race") and tier == "thorough":
+                # a data race reported by the detector makes the process exit non-zero: the run does
+                # not complete and the obligation is reported as broken with the detector's output
+                if build_go_race(log):
+                    binary = HARNESS_RACE
+            lines, crashed, okh = run_harness(op, rargs, workdir, "%s-%d" % (op, i), log, binary=binary,
+                                              env=(dict(GOENV, GORACE="halt_on_error=1 exitcode=66") if binary else None))
         if not okh:
             res.oblige("harness:run:%s#%d" % (op, i), False, "harness did not complete")
             continue
